@@ -475,7 +475,6 @@ async fn fd_case(ty: Ty, tr: crate::e4::Tr, reset: bool, cycles: usize) -> Optio
 
 pub fn child_fd(tier: Tier) -> i32 {
     let cycles = tier.pick(12usize, 50usize);
-    let rt = crate::e4::runtime(2);
     let mut n = 0;
     for ty in ALL_TYPES {
         for tr in [crate::e4::Tr::Tcp4, crate::e4::Tr::Tcp6, crate::e4::Tr::Ipc] {
@@ -484,8 +483,18 @@ pub fn child_fd(tier: Tier) -> i32 {
                     continue;
                 }
                 n += 1;
-                let r = rt.block_on(fd_case(ty, tr, reset, cycles));
+                let r = crate::e4::block_on_deadline(2, crate::e4::CASE_DEADLINE, move || async move { fd_case(ty, tr, reset, cycles).await });
+                let hung = r.is_none();
+                let r = r.unwrap_or_else(|| Some((format!("runtime-hung/{}", ty.name()), format!("{} over {}: connect/traffic/disconnect cycles did not come back within {} s: a runtime thread is blocked for ever", ty.name(), tr.name(), crate::e4::CASE_DEADLINE.as_secs()))));
                 println!("{}", json!({"type": ty.name(), "transport": tr.name(), "reset": reset, "cycles": cycles, "finding": r}));
+                if hung {
+                    // descriptor counts are meaningless with a stuck runtime in the process: stop here
+                    crate::e4::cleanup_ipc_dir();
+                    println!("{}", json!({"cases": n}));
+                    use std::io::Write;
+                    let _ = std::io::stdout().flush();
+                    std::process::exit(0);
+                }
             }
         }
     }
@@ -525,10 +534,10 @@ pub fn run(tier: Tier, replay: Option<String>) -> i32 {
     e3::run_jobs_into(&mut ck, js, true);
     // E4: descriptor cycles on the real transports, in a child process (descriptor counts are per process)
     let mut fd_cases = 0u64;
-    if let Ok(exe) = std::env::current_exe() {
-        match std::process::Command::new(exe).args(["c16-fd", tier.as_str()]).output() {
-            Ok(o) if o.status.success() => {
-                for l in String::from_utf8_lossy(&o.stdout).lines() {
+    {
+        match crate::e4::child_output(&["c16-fd", tier.as_str()], std::time::Duration::from_secs(1800)) {
+            Ok((true, stdout)) => {
+                for l in stdout.lines() {
                     let Ok(v) = serde_json::from_str::<Value>(l) else { continue };
                     if let Some(n) = v["cases"].as_u64() {
                         fd_cases = n;
@@ -544,8 +553,8 @@ pub fn run(tier: Tier, replay: Option<String>) -> i32 {
                     }
                 }
             }
-            Ok(o) => ck.machinery_error(format!("c16-fd child exited with {:?}", o.status)),
-            Err(e) => ck.machinery_error(format!("cannot run c16-fd child: {}", e)),
+            Ok((false, _)) => ck.machinery_error("c16-fd child exited abnormally".to_string()),
+            Err(e) => ck.machinery_error(format!("c16-fd child: {}", e)),
         }
     }
     ck.cov("e4_descriptor_cycle_cases", fd_cases);
